@@ -161,10 +161,16 @@ CFG = {
         "paulmach/osm osmxml and osmpbf scanners deliver the elements of the file in file order (exercised for real by every case; PBF files are "
         "written by a hand-made encoder in harness/cmd/c18/pbf.go: dense nodes, ways, relations, raw/zlib blobs, 1/3/8000 objects per block, two granularities)",
         "harness/cmd/c18 + lean driver + lib/vcheck.py transport inputs faithfully",
+        "T1: harness/cmd/c18/t1.go (go/ast, statement level, subset in its header) regenerates lean/GeomV/C18/Gen.lean from encoding/osm/{keep,check,extract}.go, "
+        "bounds.go, point.go of the tree under test on every run (16 functions); Tie.lean/TieFilter.lean prove them equal to the model / the Spec (20 tie lemmas, "
+        "C18_provided_keeps_src, C18_check_src). Trusted in T1: the translator and the meaning lean/GeomV/C18/GenLib.lean gives to its vocabulary (Ctl over the assigned "
+        "variables, rangeS/whileS, Go maps as association lists ranged in an oracle order, locks dropped = sequential meaning, integer-grid coordinates, stored pointers non-nil). "
+        "A function outside the subset or a failing tie lemma is reported with the Go function's name",
     ],
     "assumptions": [
-        "element ids are unique per kind within a document (uniqueKeys); keep functions are of the form base(o) || (dyn(o) && some reference of o is already kept), "
-        "which covers KeepTags, KeepBounds and KeepAll",
+        "element ids are unique per kind within a document (uniqueKeys) for completeness and schedule independence (without it: C18_duplicates, and the result IS schedule dependent: "
+        "C18_duplicates_schedule_dependent); keep functions are of the form base(o) || (dyn(o) && some reference of o is already kept) — PROVED for the regenerated KeepTags, KeepBounds, KeepAll "
+        "(tie_Keep*, C18_provided_keeps_src)",
         "documents contain only node/way/relation elements (a changeset element makes a worker return early; not part of the property)",
     ],
     "rule": "generated OSM XML documents of 5-80 (thorough 5-140) elements in 7 file orders (canonical, relations first, ways before nodes, descending ids, "
@@ -187,6 +193,9 @@ CFG = {
             "every steered run of every X line additionally carries a digest of stored objects + Geom + CountTags that must equal the sequential run's. "
             "plus T lines: XML / PBF input cut inside the header, at or inside a block (object line), between a BlobHeader and its Blob: Spec = an error OR exactly "
             "the closure of the objects completely before the cut; model = closure of the prefix for a PBF cut at a block boundary, scanner error otherwise. "
+            "plus D lines: documents that REPEAT an id (a copy with another reference list / tags / position inserted anywhere): Spec on one GOMAXPROCS=1 and three GOMAXPROCS 4/3/16 runs = "
+            "ids inside the closure, closedDB (every selected element in, every stored id has a version whose present references are stored), stored objects are elements of the document, "
+            "Check ok when nothing dangles; model (exact) = sequential ids, passes and WHICH version is stored. "
             "distinct = distinct input line; non-trivial = verdict class not '*-skipped'",
     "timeout": {"quick": 900, "thorough": 3000},
 }
